@@ -5,14 +5,14 @@ from common import *
 import muconf
 from muconf import P, op
 
-MC = os.path.join(BUILD, "mc")
+MC = os.path.join(WORK, "mc")
 _consts = None
 
 
 def consts():
     global _consts
     if _consts is None:
-        _consts = muconf.extract_consts(REPO, os.path.join(BUILD, "consts"))
+        _consts = muconf.extract_consts(REPO, os.path.join(WORK, "consts"))
         if _consts.get("partial"):
             raise ToolFailure("a mask in common.h sets only part of the reader-count field; Mu.tla cannot represent it")
     return _consts
@@ -37,7 +37,7 @@ def run_config(run, exe, name, conf, invariants, env=None, workers=4, cap_tours=
     if not info["ok"] and not info["violated"]:
         raise ToolFailure("TLC failed on %s: %s" % (name, "\n".join(info["log"][-40:])))
     tours = tlcgraph.build_tours(g, cap_tours=cap_tours)
-    sched = os.path.join(BUILD, "tlc", "mu_%s.sched" % name)
+    sched = os.path.join(WORK, "tlc", "mu_%s.sched" % name)
     init = muconf.init_line(conf)
     steps = tlcgraph.write_schedule(sched, g, tours, init, obs_fmt=fmt_mu_obs)
     e = dict(os.environ); e["VERIF_PROP"] = prop
@@ -118,7 +118,7 @@ def detect_dbgfixed(exe):
     if _dbgfixed is not None:
         return _dbgfixed
     conf = dict(progs=[P("L", "D", "U"), P("L", "U")], NV=1)
-    tr = os.path.join(BUILD, "tlc", "dbgprobe.ndjson")
+    tr = os.path.join(WORK, "tlc", "dbgprobe.ndjson")
     run_harness_env(exe, ["random", "60", "7", muconf.init_line(conf), REPLAYS, tr], dict(os.environ))
     kinds = set()
     for line in open(tr):
@@ -127,3 +127,123 @@ def detect_dbgfixed(exe):
     os.unlink(tr)
     _dbgfixed = "st" not in kinds
     return _dbgfixed
+
+
+_cvfix = None
+
+
+def detect_cvfix(exe):
+    """who clears the `waiting` flag of an nsync_wait_n record on a cv: wake_waiters (after the cv spinlock was
+    dropped: the pinned tree) or nsync_cv_signal/broadcast under the spinlock (repaired)?  Observed, not assumed."""
+    global _cvfix
+    if _cvfix is not None:
+        return _cvfix
+    conf = dict(progs=[P("L", op("waitnloop", v=1), "U"), P("L", "set11", "S", "U")], NV=1)
+    tr = os.path.join(WORK, "tlc", "cvprobe.ndjson")
+    run_harness_env(exe, ["random", "40", "5", muconf.init_line(conf), REPLAYS, tr], dict(os.environ))
+    fns = set()
+    for line in open(tr):
+        if '"k":"st"' in line and '"o":"stack' in line:
+            fns.add(json.loads(line)["fn"])
+    os.unlink(tr)
+    _cvfix = "wake_waiters" not in fns
+    return _cvfix
+
+
+# which spec invariants / real-code oracles speak for which property
+INV_OF = {"C01": {"Excl"}, "C02": {"NoStuck"}, "C04": {"PickedReportsWake", "NoStuck"}, "C05": {"RetHonest", "NoStuck"},
+          "C06": {"NoStuck"}, "C11": {"PickedReportsWake", "NoStuck"}, "C13": {"NoDeadRecordTouch", "NoTouchAfterFree"},
+          "C14": {"SleepBound"}, "C16": {"Excl", "NoStuck", "WordAgrees"}}
+ORACLE_OF = {"C01": {"O-excl"}, "C02": {"O-prog"}, "C04": {"O-prog", "O-ret"}, "C05": {"O-ret", "O-prog"}, "C06": {"O-prog", "O-cond", "O-ret"},
+             "C11": {"O-ret", "O-prog", "O-mem"}, "C13": {"O-mem"}, "C14": {"O-starve"}, "C16": {"O-excl", "O-prog", "O-canary"}, "C03": {"O-hb"}}
+ALWAYS = {"O-crash"}
+
+
+def run_family(run, exe, prop, configs, parallel=5, workers=3, env=None, cap_tours=None):
+    """configs: list of (name, conf).  Runs each (TLC exhaustive + tours + lock-step replay), then applies the
+    decision rule: real-code oracle failures of this property's oracles, and spec-level refutations of this
+    property's invariants confirmed by replay."""
+    import concurrent.futures as cf
+    prepare_spec()
+    dbg = detect_dbgfixed(exe)
+    cvfix = detect_cvfix(exe)
+    run.cov["spec_parameters_from_code"] = {"DbgFixed": dbg, "CvFix": cvfix, "K": consts()["K"], "masks": {k: consts()[k] for k in ("WLOCK", "SPIN", "WAITING", "DESIG", "CONDB", "WRW", "LONGW", "ALLF", "RLOCK")},
+                                            "LTW": consts()["LTW"], "LTR": consts()["LTR"]}
+
+    def one(item):
+        name, conf = item
+        conf = dict(conf)
+        conf.setdefault("DbgFixed", dbg)
+        conf.setdefault("CvFix", cvfix)
+        return name, conf, run_config(run, exe, name, conf, [], workers=workers, prop=prop, env=env, cap_tours=cap_tours)
+    results = []
+    with cf.ThreadPoolExecutor(parallel) as ex:
+        for r in ex.map(one, configs):
+            results.append(r)
+    wanted_inv = INV_OF.get(prop, set())
+    wanted_or = ORACLE_OF.get(prop, set()) | ALWAYS
+    for name, conf, out in results:
+        account(run, name, out)
+        for v in out["res"]["viols"]:
+            sig = "%s|%s|%s" % (v[0], v[1], name)
+            if v[0] in wanted_or:
+                run.violation(sig, v[4], v[5])
+            else:
+                run.note("oracle of another property fired in %s: %s %s: %s" % (name, v[0], v[1], v[5][:160]))
+        for k, f in enumerate(out["findings"]):
+            tag = "TLC|%s|%s|%s|%s" % (f["name"], f["label"], "+".join(f["taints"]) or "untainted", name)
+            if f["name"] not in wanted_inv:
+                run.note("spec-level refutation outside this property: " + tag)
+                continue
+            ok, path, detail = confirm(run, exe, name, out, f, k)
+            if ok:
+                run.violation(tag, path, "Mu.tla (constants from the code) refutes %s in configuration %s; %s" % (f["name"], name, detail))
+            else:
+                run.note("spec-level refutation NOT reproduced on the code (%s): %s" % (tag, detail))
+        try:
+            os.unlink(out["sched"])
+        except OSError:
+            pass
+    return results
+
+
+RULE = ("each case is one behaviour of Mu.tla (one label per atomic operation) from the initial state to a terminal state, "
+        "replayed in lock-step on the real mu.c/mu_wait.c/cv.c/wait.c/sem_wait.c/debug.c under the deterministic runtime; the tours "
+        "of a configuration together take every transition TLC generated (exhaustive for that configuration); the property's oracles "
+        "run on the real execution at every step and the property's invariants are evaluated by TLC in every state; non-trivial = "
+        "contains a failed CAS, a spin-delay, or a semaphore sleep")
+BASE_ASSUME = ["sequentially consistent interleavings of the atomic operations (C03 judges the declared memory orders separately)",
+               "2-3 threads with 1-4 client operations each, one mutex, one condition variable, one cancellation note, clock 0..1",
+               "semaphore, waiter pool and note operations are single steps at this layer (justified by Sem.tla / Note.tla)",
+               "TLC, SANY, gcc -fsanitize=thread instrumentation and /verif/rt are trusted"]
+
+
+def mu_check(prop, tier, replay, extra_rule="", extra_assume=(), env=None, post=None, family=None, cap_tours=None):
+    import muconfigs
+    run = Run(prop, tier, "model_checking")
+    exe = build("h_mu")
+    e = dict(os.environ, VERIF_PROP=prop)
+    if env:
+        e.update(env)
+    if replay:
+        res = run_harness_env(exe, ["replay", replay, REPLAYS], e)
+        for v in res["viols"]:
+            run.violation("%s|%s|replay" % (v[0], v[1]), replay, v[5])
+        if not res["viols"] and res["stats"].get("matched"):
+            # a TLC counterexample: confirmed when the code follows it to the end
+            if os.path.basename(replay).split("_")[2:3] and "_TLC" not in replay and res["stats"].get("matched") == 1 and any(
+                    x in replay for x in ("Excl", "PickedReportsWake", "RetHonest", "NoDeadRecordTouch", "NoTouchAfterFree", "SleepBound", "NoStuck", "WordAgrees")):
+                run.violation("TLC|replay", replay, "the real code follows the specification's counterexample in lock-step to the end")
+        return run.finish()
+    run.cov["rule"] = RULE + extra_rule
+    run.cov["exhaustive"] = True
+    run.assumptions += BASE_ASSUME + list(extra_assume)
+    fam = family if family is not None else muconfigs.family(prop, tier)
+    results = run_family(run, exe, prop, fam, env=e, cap_tours=cap_tours)
+    if cap_tours:
+        run.cov["tours_capped_at"] = cap_tours
+        run.cov["exhaustive"] = False
+    if post:
+        post(run, exe, results, e)
+    run.cov.setdefault("conformant", True)
+    return run.finish()
